@@ -93,7 +93,8 @@ theorem parseSeq_spells (env : Env R) (hd : env.decrypt = none) (items : List (I
     have e : pos + g0.length + tx.length + g'.length + (seqText items).length =
         pos + g0.length + (tx ++ g' ++ seqText items).length := by simp; omega
     have hah2 : Ahead buf (pos + g0.length + tx.length + g'.length + (seqText items).length) := by rw [e]; exact hah
-    have hv := parseCtx_spells env hd v tx hx hwf hsz g0 (g' ++ seqText items ++ rest) pos fuel none maxDepth hg0 hs1
+    have hv := parseCtx_spells env hd v tx hx hwf hsz g0 (g' ++ seqText items ++ rest) pos fuel none maxDepth Flags.any hg0
+      (any_allows v) hs1
       (fun hb => by simpa using hbnd hb) (ahead_seq env.parseReal items g' rest _ hrest hg' hlast hs2 hah2) (by omega) hdep
     have hrec := ih hsz g' rest (pos + g0.length + tx.length) fuel hrest hg' hs2 hah2 (by omega)
     simp only [List.length_cons, parseSeq, parseWithLexer, hv, Out.bind_ok, hrec, seqExpected]
